@@ -186,8 +186,10 @@ func (p c13) Run(c *core.Ctx, idx int) {
 	if gm != nil {
 		c.Count("store_" + gm.String())
 	}
-	c.SetSample(map[string]interface{}{"yang": head(s.Yang(), 800), "family": idx % 8})
-	switch idx % 8 {
+	// the family of requests is independent of the schema (fixed / generated) and of the store the requests go to
+	family := (idx / 2) % 8
+	c.SetSample(map[string]interface{}{"yang": head(s.Yang(), 800), "family": family})
+	switch family {
 	case 0, 1:
 		p.jsonShapes(e)
 	case 2:
@@ -504,6 +506,19 @@ func (p c13) pathsOn(e *c13env, fam string, root func() *node.Selection) {
 			pp2 := v[:i] + subs[e.c.Rand.Intn(len(subs))] + v[i:]
 			e.try(fam, "char-insert", pp2, true, find(pp2))
 		}
+		// more key values than the list has key leaves, on every keyed segment
+		segs := strings.Split(v, "/")
+		for i, sg := range segs {
+			if !strings.Contains(sg, "=") {
+				continue
+			}
+			for _, surplus := range []string{",surplus", ",", ",1,2,3"} {
+				alt := append([]string{}, segs...)
+				alt[i] = sg + surplus
+				pp := strings.Join(alt, "/")
+				e.try(fam, "surplus-key-values", pp, true, find(pp))
+			}
+		}
 		// from a non-root start
 		if sel, err := root().Find(v); err == nil && sel != nil {
 			for _, rel := range []string{"..", "../", "../..", "../" + v, "../../../../../x", "zz", "=1", "?depth=1"} {
@@ -570,11 +585,13 @@ func (p c13) queries(e *c13env) {
 	// random combinations with values drawn from the schema's own names
 	var names []string
 	e.s.Walk(func(n *dp.SNode) { names = append(names, n.Name) })
-	for k := 0; k < 150; k++ {
+	for k := 0; k < 195; k++ {
 		nm := names[e.c.Rand.Intn(len(names))]
 		nm2 := names[e.c.Rand.Intn(len(names))]
 		q := []string{"fields=" + nm + "/" + nm2, "fields=" + nm + ";" + nm2, "fc.xfields=" + nm, "fc.range=" + nm + "!0-1", "fc.range=" + nm + "/" + nm2 + "!1-", "fields=" + nm + "(" + nm2 + ")",
-			"where=" + nm + "=1", "where=" + nm + "%3E1", "where=" + nm + "/" + nm2 + "='x'", "depth=" + fmt.Sprint(k%5) + "&fields=" + nm}[k%10]
+			"where=" + nm + "=1", "where=" + nm + "%3E1", "where=" + nm + "/" + nm2 + "='x'", "depth=" + fmt.Sprint(k%5) + "&fields=" + nm,
+			// windows that lost their start row
+			"fc.range=" + nm + "!-2", "fc.range=" + nm + "!-1-2", "fc.range=" + nm + "/" + nm2 + "!-9223372036854775808"}[k%13]
 		tt := targets[k%len(targets)]
 		e.try("query", "schema-names", tt+"?"+q, true, func() error {
 			sel, err := e.browser().Root().Find(tt + "?" + q)
